@@ -41,6 +41,47 @@ pub fn build(tier: &str, seed: u64) -> World {
                 }
                 let density = if thorough { Density::Full } else { Density::Sampled };
                 let muts = codec::enumerate(tree, density);
+                // correlated alterations: the same leaf mutation at two elements of the outer vector
+                // (first+second, first+last), and two elements swapped
+                let mut multi: Vec<(String, What)> = vec![];
+                {
+                    let mut groups: std::collections::BTreeMap<(Vec<usize>, String), Vec<usize>> = Default::default();
+                    for tm in &muts {
+                        if tm.path.len() >= 2 && matches!(tm.op, MutOp::FlipBit) {
+                            groups.entry((tm.path[1..].to_vec(), format!("{:?}", tm.op))).or_default().push(tm.path[0]);
+                        }
+                    }
+                    for ((rel, _), mut firsts) in groups {
+                        firsts.sort();
+                        firsts.dedup();
+                        if firsts.len() < 2 { continue; }
+                        let mut pairs = vec![(firsts[0], firsts[1])];
+                        if firsts.len() > 2 { pairs.push((firsts[0], firsts[firsts.len() - 1])); }
+                        for (a, b) in pairs {
+                            let mk = |i: usize| { let mut p = vec![i]; p.extend_from_slice(&rel); codec::TreeMut { path: p, op: MutOp::FlipBit } };
+                            multi.push((format!("tree:FlipBit-at-two-elements@depth{}", rel.len() + 1), What::TreeMulti(vec![mk(a), mk(b)])));
+                        }
+                        if !early {
+                            multi.push(("tree:SwapElems".to_string(), What::Tree(codec::TreeMut { path: vec![], op: MutOp::SwapElems(firsts[0], firsts[firsts.len() - 1]) })));
+                        }
+                    }
+                    multi.dedup_by(|a, b| a.0 == b.0 && a.1 == b.1);
+                }
+                let reps_multi = if thorough || crate::adv::is_online_label(&m.label) { reps } else { 1 };
+                for (class, what) in multi {
+                    if early && !thorough { continue; }
+                    for r in 0..reps_multi {
+                        let plan = FaultPlan {
+                            corrupt: c,
+                            actions: vec![FaultAction { target: Target { from: c, to: Some(m.to), label: m.label.clone(), k: Some(m.k) }, what: what.clone() }],
+                            crash: None,
+                            seed: seed ^ ((ci as u64) << 40) ^ ((c as u64) << 32) ^ ((mi as u64) << 12) ^ 0x800 ^ r as u64,
+                        };
+                        let mut fc = FaultCase::new(ci, plan, format!("{class}:single"), m.label.clone());
+                        fc.rep = r;
+                        cases.push(fc);
+                    }
+                }
                 let mut seen = std::collections::BTreeSet::new();
                 for tm in muts {
                     if matches!(tm.op, MutOp::Randomize) && !thorough {
